@@ -8,7 +8,7 @@ fed in some chunking with queries along the way.  Cases are generated from a see
   chunking  one call, random pieces, tiny pieces, buffered (no_search) pieces, int16/float32 entry points
   queries   partial results between pieces, final results, and whatever the property asks (`want`)
 """
-import json, os, random, concurrent.futures
+import json, os, re, random, concurrent.futures
 from vlib import sut, runner, tlc
 
 HOT = ["go", "forward", "backward", "ten", "meters", "meter", "two", "one", "the", "a", "turn", "left", "right",
@@ -85,9 +85,32 @@ def rand_jsgf(rng):
     return "public <s> = %s;" % body
 
 
+def fsg_annotation(text):
+    """the grammar a piece of FSG text describes, as the JSON members the driver copies into the Grammar event
+    (n, start, final, arcs [from, to, word or "", 0]): what the user wrote, independent of the reader"""
+    n = start = final = 0
+    arcs = []
+    for ln in text.split("\n"):
+        t = ln.split()
+        if not t:
+            continue
+        if t[0] in ("NUM_STATES", "N"):
+            n = int(t[1])
+        elif t[0] in ("START_STATE", "S"):
+            start = int(t[1])
+        elif t[0] in ("FINAL_STATE", "F"):
+            final = int(t[1])
+        elif t[0] in ("TRANSITION", "T"):
+            # (results are reported with alternate-pronunciation markers removed: label = base form)
+            arcs.append([int(t[1]), int(t[2]), re.sub(r"\(\d+\)$", "", t[4]) if len(t) > 4 else "", 0])
+    return '"n":%d,"start":%d,"final":%d,"arcs":%s' % (n, start, final, json.dumps(arcs))
+
+
 def rand_fsg_text(rng, name="g"):
     n = rng.randint(2, 7)
     words = rng.sample(HOT, rng.randint(2, 6)) + ["go", "forward"]
+    if rng.random() < 0.3:          # spellings the dictionary also has in another case or as a numbered variant
+        words += rng.sample(["A", "THE", "a(2)", "the(2)", "to(3)", "what(2)", "hello(2)"], 2)
     arcs = []
     # a backbone so that the final state is usually reachable
     if rng.random() < 0.85:
@@ -122,7 +145,10 @@ def pick_grammar(rng, ctx, idx, valid_only=False):
     if r < 0.62:
         return ["fsgfile " + os.path.join(data, rng.choice(["goforward.fsg", "goforward2.fsg"] + ([] if valid_only else ["goforward3.fsg"])))], "fsg-file"
     if r < 0.80:
-        return ["fsgtext " + hx(rand_fsg_text(rng))], "fsg-rand"
+        txt = rand_fsg_text(rng)
+        # (case variants exist only as run-time additions; they come before the grammar)
+        pre = ["addword %s %s 0" % (w.encode().hex(), p.encode().hex()) for w, p in (("A", "EY"), ("THE", "DH AH")) if " " + w + "\n" in txt]
+        return pre + ["fsgtext " + hx(txt) + " " + hx(fsg_annotation(txt))], "fsg-rand"
     return ["align " + hx(rng.choice(ALIGN_TEXTS))], "align"
 
 
